@@ -8,7 +8,7 @@ use quil_rs::Program;
 
 /// Accepted spellings that differ from what the printer emits (literal forms, redundant
 /// parentheses, bare memory names, implicit lengths, tabs, upper-case keywords in expressions, ...).
-pub const SPELLINGS: [&str; 96] = [
+pub const SPELLINGS: [&str; 97] = [
     "MOVE ro 1.0",
     "MOVE ro[0] 0x10",
     "MOVE ro -0b101",
@@ -77,6 +77,7 @@ pub const SPELLINGS: [&str; 96] = [
     "XY(pi/2) 0 1",
     "my-gate 0",
     "H q",
+    "X %q",
     "DECLARE ro BIT",
     "DECLARE x REAL[1]",
     "DECLARE y OCTET[4] SHARING x OFFSET 1 REAL 2 BIT",
@@ -139,7 +140,7 @@ pub fn token_alphabet() -> Vec<&'static str> {
     v.extend_from_slice(&[
         "x", "ro", "i", "pi", "sin", "0", "1", "18446744073709551615", "18446744073709551616", "9223372036854775808", "0x1F", "0b", "1.5", "1e400",
         ".5", "\"s\"", "\"\"", "%v", "@t", "+", "-", "*", "/", "^", "(", ")", "[", "]", ",", ":", ";", "!", "\n", "\n    ", "\t", "# c", "ro[0]",
-        "q", "2i",
+        "q", "2i", "%MOVE", "1_.__12345678901234567890_1", "1._2",
     ]);
     v
 }
